@@ -26,6 +26,7 @@ CLAIMED = {
         "design_ref": "DESIGN.md section 8, C20",
         "note": COMMON_NOTE + "Sleeping is observed through inter-call gaps (lower bound), not modelled in real time.",
         "technique": "Rocq proof by induction over the retry loop + differential run of RetryMiddleware vs model",
+        "coq_targets": ["Properties/C20.vo", "Corr/RetryCorr.vo"],
     },
 }
 
